@@ -3,15 +3,32 @@
 (* Behaviour generator for BadgerKV: the contract's actions extended with  *)
 (* a history variable that records every API call together with the        *)
 (* observation the contract predicts, plus environment steps (flush,       *)
-(* compactions, value-log GC, re-open) which the contract says are         *)
-(* invisible.  Each complete history is printed once as a JSON "CASE".     *)
+(* compactions, value-log GC, re-open in several modes) which the contract *)
+(* says are invisible.  Each complete history is printed once as a JSON    *)
+(* "CASE".                                                                 *)
+(*                                                                         *)
+(* The generator refines the contract with "compaction removes nothing":   *)
+(* committed keeps every version and hw records the largest discard bound  *)
+(* a compaction step has run with; observations that may legitimately      *)
+(* differ after a compaction (AllVersions output below hw) carry hw so the *)
+(* replayer accepts exactly the outcomes BadgerKV!Compact allows           *)
+(* (BadgerKV!ReadStableAboveDiscard is model-checked on the contract).     *)
 (***************************************************************************)
-EXTENDS BadgerKV, Json
+EXTENDS BadgerKV, Json, SequencesExt
 
 CONSTANTS HistLen,    \* number of steps per generated history
           EnvSteps,   \* set of environment step names offered to the generator
           MaxOps,     \* a transaction performs at most this many reads/writes, then must end
-          MaxActive   \* at most this many transactions are open at once
+          MaxActive,  \* at most this many transactions are open at once
+          IterOptList,\* sequence of iterator option templates (<<>>: plain Seek(from) iterators)
+          SeekKeys,   \* keys used as seek / get keys in addition to Keys written (subset of Keys)
+          WriteKeys,  \* keys transactions write (subset of Keys)
+          SplitIter,  \* BOOLEAN: also generate NewIterator ... (other steps) ... loop
+          ScanVias,   \* subset of {"iter", "stream", "backup"}: whole-DB scans at the latest timestamp
+          RejKinds,   \* subset of {"blocked", "closed"}: commits refused by the write path
+          BigSets,    \* BOOLEAN: generate Sets refused with ErrTxnTooBig
+          Dumps,      \* BOOLEAN: generate AllVersions dumps (always after a rejected commit)
+          TickWeight, EnvWeight, WriteWeight  \* relative frequencies (duplicated successors)
 
 VARIABLE hist
 gvars == <<vars, hist>>
@@ -23,49 +40,104 @@ NoActive == \A t \in Txns : txn[t].st # "active"
 
 \* ---- shaping guards: they only restrict which histories are generated (so that commits,
 \* conflicts and overlapping transactions are frequent); the contract is untouched.
-OpsOf(t) == Cardinality({i \in 1..Len(hist) : hist[i].op \in {"get", "set", "del", "iter"} /\ hist[i].t = t})
+OpsOf(t) == Cardinality({i \in 1..Len(hist) : hist[i].op \in {"get", "set", "del", "iter", "iterOpen", "setBig"} /\ hist[i].t = t})
 CanOp(t) == OpsOf(t) < MaxOps
 NumActive == Cardinality({t \in Txns : txn[t].st = "active"})
 UpdOf(t) == t % 3 # 0                     \* two thirds of the transactions are read-write
-UmOf == IF nval % 3 = 0 THEN 7 ELSE 0      \* attributes of a Set derive from the value counter
-ExpOf == IF nval % 4 = 0 /\ 2 \in Exps THEN 2 ELSE 0
+UmOf == IF nval % 3 = 0 THEN Max(UMs) ELSE Min(UMs)      \* attributes of a Set derive from the value counter
+ExpOf == LET es == Exps \ {0} IN
+         IF es = {} \/ nval % 2 = 1 THEN (IF 0 \in Exps THEN 0 ELSE Min(Exps))
+         ELSE IF nval % 4 = 0 THEN Min(es) ELSE Max(es)
 DiscOf == nval % 5 = 0 /\ TRUE \in Discs
+CbOf(t) == t % 2 = 0                      \* every other transaction commits through CommitWith
+LastOp == IF Len(hist) = 0 THEN "none" ELSE hist[Len(hist)].op
+LastRejected == /\ Len(hist) > 0
+                /\ hist[Len(hist)].op \in {"commit", "commitAt"}
+                /\ hist[Len(hist)].res \in {"conflict", "blocked", "closed"}
+\* after a rejected commit the next step is a full dump (it must equal the pre-state)
+Free == Room /\ ~(Dumps /\ LastRejected)
+MaxReadTs == IF Managed THEN MaxTs + 1 ELSE nextTs - 1
+ReopenEnv == {"reopen", "reopenRO", "reopenCompact"}
+CompactingEnv == {"compactL0", "compactL0L0", "compactDown", "reopenCompact"}
 
-GBegin(t, u) == Room /\ u = UpdOf(t) /\ NumActive < MaxActive /\ Begin(t, u) /\ H([op |-> "begin", t |-> t, upd |-> u, readTs |-> nextTs - 1])
-GBeginAt(t, u, ts) == Room /\ u = UpdOf(t) /\ NumActive < MaxActive /\ BeginAt(t, u, ts) /\ H([op |-> "beginAt", t |-> t, upd |-> u, readTs |-> ts])
-GGet(t, k) == Room /\ CanOp(t) /\ Get(t, k) /\ H([op |-> "get", t |-> t, k |-> k, res |-> GetResult(t, k)])
-GSet(t, k, um, exp, d) == Room /\ CanOp(t) /\ um = UmOf /\ exp = ExpOf /\ d = DiscOf /\ Set(t, k, um, exp, d)
+OptAt(k) == [(IF IterOptList = <<>> THEN NoOpts
+              ELSE IterOptList[((Len(hist) + nval) % Len(IterOptList)) + 1]) EXCEPT !.seek = k]
+
+GBegin(t, u) == Free /\ ~Managed /\ txn[t].st = "idle" /\ u = UpdOf(t) /\ NumActive < MaxActive /\ Begin(t, u) /\ H([op |-> "begin", t |-> t, upd |-> u, readTs |-> nextTs - 1])
+GBeginAt(t, u, ts) == Free /\ Managed /\ txn[t].st = "idle" /\ u = UpdOf(t) /\ NumActive < MaxActive /\ BeginAt(t, u, ts) /\ H([op |-> "beginAt", t |-> t, upd |-> u, readTs |-> ts])
+GGet(t, k) == Free /\ Active(t) /\ k \in SeekKeys /\ k \notin Internal /\ CanOp(t) /\ Get(t, k) /\ H([op |-> "get", t |-> t, k |-> k, res |-> GetResult(t, k)])
+GSet(t, k, um, exp, d) == Free /\ Active(t) /\ txn[t].upd /\ k \in WriteKeys /\ um = UmOf /\ exp = ExpOf /\ d = DiscOf /\ CanOp(t) /\ Set(t, k, um, exp, d)
                           /\ H([op |-> "set", t |-> t, k |-> k, val |-> nval, um |-> um, exp |-> exp, disc |-> d])
-GDelete(t, k) == Room /\ CanOp(t) /\ Delete(t, k) /\ H([op |-> "del", t |-> t, k |-> k])
-GCommit(t) == Room /\ Commit(t)
-              /\ H([op |-> "commit", t |-> t,
-                    res |-> IF txn[t].haswr = {} THEN "empty" ELSE IF Conflict(t) THEN "conflict" ELSE "ok",
-                    cts |-> IF txn[t].haswr = {} \/ Conflict(t) THEN 0 ELSE nextTs])
-GCommitAt(t, ts) == Room /\ CommitAt(t, ts)
-              /\ H([op |-> "commitAt", t |-> t,
-                    res |-> IF txn[t].haswr = {} THEN "empty" ELSE IF Conflict(t) THEN "conflict" ELSE "ok",
-                    cts |-> ts])
-GDiscard(t) == Room /\ (~txn[t].upd \/ ~CanOp(t)) /\ Discard(t) /\ H([op |-> "discard", t |-> t])
-GIterate(t, k, r) == Room /\ CanOp(t) /\ Iterate(t, k, r)
-                     /\ H([op |-> "iter", t |-> t, from |-> k, rev |-> r, res |-> IterResult(t, k, r)])
-GTick == Room /\ Tick /\ H([op |-> "tick", now |-> now + 1])
-\* environment steps leave the contract state unchanged; re-open needs all transactions ended
-GEnv(e) == /\ Room /\ e \in EnvSteps
-           /\ (e = "reopen" => NoActive)
-           /\ Len(hist) > 0 /\ hist[Len(hist)].op \in {"commit", "commitAt", "tick"}   \* after a commit or tick only
-           /\ UNCHANGED vars
+GDelete(t, k) == Free /\ Active(t) /\ txn[t].upd /\ k \in WriteKeys /\ CanOp(t) /\ Delete(t, k) /\ H([op |-> "del", t |-> t, k |-> k])
+GSetBig(t, k) == Free /\ BigSets /\ Active(t) /\ txn[t].upd /\ k \in WriteKeys /\ k = Min(WriteKeys) /\ CanOp(t) /\ SetRejected(t, k) /\ H([op |-> "setBig", t |-> t, k |-> k])
+CommitRes(t) == IF txn[t].haswr = {} THEN "empty" ELSE IF Conflict(t) THEN "conflict" ELSE "ok"
+GCommit(t) == Free /\ ~Managed /\ Active(t) /\ Commit(t)
+              /\ H([op |-> "commit", t |-> t, cb |-> CbOf(t), res |-> CommitRes(t),
+                    cts |-> IF CommitRes(t) = "ok" THEN nextTs ELSE 0])
+\* no second write of the same key at the same version (which copy wins is C12/C27's business)
+NoDupVersion(t, ts) == ~\E c \in committed : c.ts = ts /\ c.k \in txn[t].haswr
+GCommitAt(t, ts) == Free /\ Managed /\ Active(t) /\ NoDupVersion(t, ts) /\ CommitAt(t, ts)
+              /\ H([op |-> "commitAt", t |-> t, cb |-> CbOf(t), res |-> CommitRes(t), cts |-> ts])
+\* a commit refused by the write path; "closed" closes the DB first (and re-opens it
+\* afterwards), so no other transaction may be open
+GCommitRej(t, why) == Free /\ Active(t) /\ why \in RejKinds /\ (why = "closed" => NumActive = 1)
+              /\ CommitRejected(t, why = "closed")
+              /\ H([op |-> IF Managed THEN "commitAt" ELSE "commit", t |-> t, cb |-> CbOf(t), res |-> why,
+                    cts |-> IF Managed THEN Max({discardTs, 1}) ELSE 0])
+GDiscard(t) == Free /\ Active(t) /\ (~txn[t].upd \/ ~CanOp(t)) /\ Discard(t) /\ H([op |-> "discard", t |-> t])
+IterRec(t, o, name) == [op |-> name, t |-> t, from |-> o.seek, rev |-> o.rev, o |-> o, hw |-> hw]
+GIterate(t, k, r) == Free /\ IterOptList = <<>> /\ Active(t) /\ k # 0 /\ CanOp(t) /\ Iterate(t, k, r)
+                     /\ H(IterRec(t, PlainOpts(k, r), "iter") @@ [res |-> IterResult(t, k, r)])
+GIterateO(t, k) == Free /\ IterOptList # <<>> /\ Active(t) /\ WellFormed(OptAt(k)) /\ CanOp(t) /\ IterateO(t, OptAt(k))
+                   /\ H(IterRec(t, OptAt(k), "iter") @@ [res |-> IterItems(t, OptAt(k), txn[t].writes, txn[t].haswr)])
+GIterOpen(t, k) == Free /\ SplitIter /\ Active(t) /\ WellFormed(OptAt(k)) /\ CanOp(t) /\ IterOpen(t, OptAt(k)) /\ H(IterRec(t, OptAt(k), "iterOpen"))
+GIterRun(t) == Free /\ Active(t) /\ IterRun(t) /\ H([op |-> "iterRun", t |-> t, hw |-> hw, o |-> txn[t].it.o, res |-> IterRunResult(t)])
+GTick == Free /\ Tick /\ H([op |-> "tick", now |-> now + 1])
+GSetDiscardTs(ts) == Free /\ SetDiscardTs(ts) /\ ts > discardTs /\ H([op |-> "setDiscardTs", ts |-> ts])
+\* whole-DB scans by a fresh reader at the latest timestamp, through the plain iterator, the
+\* Stream framework or Backup (+ Load into a scratch DB)
+ScanStore == IterObs(committed, NoOpts, MaxReadTs, now)
+GScan(v) == Free /\ v \in ScanVias /\ LastOp \in {"commit", "commitAt", "tick", "env"} /\ UNCHANGED vars
+            /\ H([op |-> "scan", via |-> v, res |-> ScanStore])
+GDump == Room /\ Dumps /\ (LastRejected \/ LastOp \in {"env", "tick"}) /\ UNCHANGED vars
+         /\ H([op |-> "dump", hw |-> hw, o |-> [NoOpts EXCEPT !.all = TRUE],
+               res |-> IterObs(committed, [NoOpts EXCEPT !.all = TRUE], MaxTs + 1, now)])
+\* environment steps leave the contract state unchanged (hw aside); re-open needs all
+\* transactions ended
+GEnv(e) == /\ Free /\ e \in EnvSteps
+           /\ (e \in ReopenEnv => NoActive)
+           \* after a commit, a tick or a discard-ts move; at most two environment steps in a row
+           /\ Len(hist) > 0 /\ LastOp \in {"commit", "commitAt", "tick", "env", "setDiscardTs"}
+           /\ (LastOp = "env" => (hist[Len(hist)].what # e /\ Len(hist) > 1 /\ hist[Len(hist) - 1].op # "env"))
+           /\ hw' = IF e \in CompactingEnv /\ Bound > hw THEN Bound ELSE hw
+           /\ clog' = IF e \in ReopenEnv THEN {} ELSE clog
+           /\ discardTs' = IF e \in ReopenEnv THEN 0 ELSE discardTs
+           /\ UNCHANGED <<committed, nextTs, txn, now, nval>>
            /\ H([op |-> "env", what |-> e])
+
+\* the seek key of an option-list iterator derives from the history (one candidate per
+\* transaction and step keeps simulation fast); 0 = Rewind
+SeekSeq == <<0>> \o SetToSeq(SeekKeys)
+SeekOf(t) == SeekSeq[((Len(hist) * 5 + nval * 3 + t) % Len(SeekSeq)) + 1]
 
 GenNext ==
     \/ \E t \in Txns, u \in BOOLEAN : GBegin(t, u)
     \/ \E t \in Txns, u \in BOOLEAN, ts \in 0..MaxTs : GBeginAt(t, u, ts)
-    \/ \E t \in Txns, k \in Keys : GGet(t, k) \/ GDelete(t, k)
-    \/ \E t \in Txns, k \in Keys, um \in UMs, exp \in Exps, d \in Discs : GSet(t, k, um, exp, d)
+    \/ \E t \in Txns, k \in Keys : GGet(t, k)
+    \/ \E t \in Txns, k \in Keys, w \in 1..WriteWeight : GDelete(t, k)
+    \/ \E t \in Txns, k \in Keys, um \in UMs, exp \in Exps, d \in Discs, w \in 1..WriteWeight : GSet(t, k, um, exp, d)
+    \/ \E t \in Txns, k \in Keys : GSetBig(t, k)
     \/ \E t \in Txns : GCommit(t) \/ GDiscard(t)
     \/ \E t \in Txns, ts \in 1..MaxTs : GCommitAt(t, ts)
+    \/ \E t \in Txns, why \in RejKinds : GCommitRej(t, why)
     \/ \E t \in Txns, k \in Keys, r \in IterDirs : GIterate(t, k, r)
-    \/ GTick
-    \/ \E e \in EnvSteps : GEnv(e)
+    \/ \E t \in Txns : GIterateO(t, SeekOf(t)) \/ GIterOpen(t, SeekOf(t))
+    \/ \E t \in Txns : GIterRun(t)
+    \/ \E w \in 1..TickWeight : GTick
+    \/ \E ts \in 1..MaxTs : GSetDiscardTs(ts)
+    \/ \E v \in ScanVias : GScan(v)
+    \/ GDump
+    \/ \E e \in EnvSteps, w \in 1..EnvWeight : GEnv(e)
 
 GenInit == Init /\ hist = <<>>
 GenSpec == GenInit /\ [][GenNext]_gvars
